@@ -94,6 +94,25 @@ class ExecutionContext:
 # ---------------------------------------------------------------------------
 
 
+def admit(ctx: ExecutionContext) -> Any:
+    """
+    Ask the breaker for admission and announce its decision.
+
+    The admission is noted before the event is emitted: if a hook lets a
+    KeyboardInterrupt, a cancellation or a GeneratorExit escape at that point, the
+    call is over and the breaker is told so (a half-open probe slot is not leaked).
+    """
+    assert ctx.breaker is not None
+    decision = ctx.breaker.allow()
+    ctx.admitted = decision.allowed
+    try:
+        ctx.emit_breaker_event(decision.event, decision.state)
+    except BaseException:
+        settle_breaker(ctx)
+        raise
+    return decision
+
+
 def check_breaker(ctx: ExecutionContext) -> None:
     """
     Check circuit breaker and raise CircuitOpenError if open.
@@ -103,12 +122,10 @@ def check_breaker(ctx: ExecutionContext) -> None:
     if ctx.breaker is None:
         return
 
-    decision = ctx.breaker.allow()
-    ctx.emit_breaker_event(decision.event, decision.state)
+    decision = admit(ctx)
 
     if not decision.allowed:
         raise CircuitOpenError(decision.state.value)
-    ctx.admitted = True
 
 
 def record_success(ctx: ExecutionContext) -> None:
